@@ -67,7 +67,10 @@ def collect():
 
     def check(arr, A, cat):
         try:
-            return "T" if isinstance(arr, cats[cat][A, "..."]) else "F"
+            r = "T" if isinstance(arr, cats[cat][A, "..."]) else "F"
+            # the category is what it is however deep it sits: wrapped in two more (any-dtype) layers it accepts the same
+            r3 = "T" if isinstance(arr, cats["Shaped"][cats["Shaped"][cats[cat][A, "..."], ""], ""]) else "F"
+            return r if r3 == r else f"L3:{r3}/flat:{r}"
         except Exception as e:  # noqa
             return "Exc:" + type(e).__name__
 
